@@ -174,6 +174,115 @@ func bigCases(r *core.Rand, tier string, emit func([]string)) {
 	}
 }
 
+// labelBodiless: a message without a body that still carries a Content-Encoding label (a 304 or the
+// reply to a HEAD repeats the representation's headers; a GET with a stray label): a decoder run over
+// the empty body fails.
+func labelBodiless(r *core.Rand, a *msggen.Abs) bool {
+	if a.NilBody || len(a.Body) != 0 || a.Chunked() || a.CL > 0 {
+		return false
+	}
+	if !a.Req {
+		if a.CL < 0 { // close-delimited: an empty body, not a bodiless message
+			return false
+		}
+		a.Code, a.Status = 304, "304 Not Modified"
+		if a.Get("Content-Length") == "0" && r.Chance(1, 2) {
+			a.Code, a.Status = 200, "200 OK" // an explicit empty body
+		}
+	}
+	setHdr(a, "Content-Encoding", r.Pick("gzip", "deflate", "deflate"))
+	core.Count("bodiless-with-label")
+	return true
+}
+
+// warnCases: single-op cases in which the logger-error classes that exist on the unchanged tree (open
+// findings: the proxy turns the logger's error into a Warning header) are reported.
+func warnCases(r *core.Rand, emit func([]string)) {
+	mk := func(req bool, fr string) *msggen.Abs {
+		s := &msggen.Spec{Req: req, Method: "POST", URL: "http://h.example/w", Host: "h.example", Code: 200,
+			Framing: fr, CT: "application/octet-stream", Payload: []byte("payload payload payload")}
+		if fr == "chunked" {
+			s.Chunks = []int{5}
+		}
+		return s.Abs()
+	}
+	x := func(logger, o1, o2 string, a *msggen.Abs) {
+		emit([]string{strings.Join(append([]string{"twinxw", logger, o1, o2, "0", "p", TrustedTok(a)}, a.Tokens()...), " ")})
+	}
+	for _, k := range []string{"form-badpct", "mp-truncated"} {
+		a := mk(true, "cl")
+		Malform(r, a, k)
+		x("har", "all", "all", a)
+	}
+	for _, k := range []string{"gzip-trunc-mid", "gzip-garbage", "deflate-garbage"} {
+		a := mk(false, r.Pick("cl", "chunked"))
+		Malform(r, a, k)
+		x("har", "all", "all", a)
+	}
+	for _, k := range []string{"gzip-garbage", "gzip-empty"} {
+		a := mk(r.Bool(), "cl")
+		Malform(r, a, k)
+		x("text", "0", "1", a)
+	}
+	a := mk(false, "cl")
+	setHdr(a, "Content-Encoding", "gzip")
+	setBody(a, msggen.Gzip([]byte("fine")))
+	x("text", "1", "1", a) // headers-only + decode: gzip is opened on the empty body section
+	for _, l := range [][3]string{{"har", "all", "all"}, {"text", "0", "0"}} {
+		for _, req := range []bool{true, false} {
+			a := mk(req, "chunked")
+			emit([]string{strings.Join(append([]string{"twinfw", l[0], l[1], l[2], "0", "9", TrustedTok(a)}, a.Tokens()...), " ")})
+		}
+	}
+}
+
+// hugeCases: size thresholds. A logger (or the view it builds) may treat bodies differently beyond
+// some limit - a look-ahead buffer, a cap on what is kept for the log - and get the boundary wrong by
+// one. Bodies around powers of two up to 64 MiB, 16 MiB +-1 above all, for every framing and logger;
+// the op carries only a seed and a length (gen:...), the model does not look into the body.
+func hugeCases(r *core.Rand, tier string, emit func([]string)) {
+	type lg struct{ name, o1, o2 string }
+	type shape struct {
+		req bool
+		fr  string
+	}
+	mk := func(n int, sh shape, l lg) string {
+		seed := r.U64() % 1000000
+		s := &msggen.Spec{Req: sh.req, Method: "POST", URL: "http://h.example/huge", Host: "h.example", Code: 200,
+			Framing: sh.fr, CT: "application/octet-stream", Payload: msggen.Payload(core.NewRand(seed), "bin", n)}
+		s.BodyTok = "gen:id:bin:" + itoa(int(seed)) + ":" + itoa(n)
+		if sh.fr == "chunked" {
+			s.Chunks = []int{1 + r.Intn(70000), 1 + r.Intn(1<<20)}
+		}
+		core.Count("huge:" + l.name)
+		ab := s.Abs()
+		return strings.Join(append([]string{"twinx", l.name, l.o1, l.o2, "0", "p", TrustedTok(ab)}, ab.Tokens()...), " ")
+	}
+	const M = 1 << 20
+	if tier != "thorough" {
+		for _, sh := range []shape{{false, "chunked"}, {false, "eof"}, {true, "chunked"}} {
+			emit([]string{mk(16*M+1, sh, lg{"har", "all", "all"})})
+		}
+		emit([]string{mk(16*M+1, shape{false, "chunked"}, lg{"text", "0", "0"})})
+		return
+	}
+	loggers := []lg{{"har", "all", "all"}, {"text", "0", "0"}, {"marbl", "-", "-"}, {"snapshot", "0", "-"}}
+	shapes := []shape{{false, "chunked"}, {false, "eof"}, {false, "cl"}, {true, "chunked"}, {true, "cl"}}
+	for _, n := range []int{16*M - 1, 16 * M, 16*M + 1, 32*M + 1} {
+		for _, sh := range shapes {
+			for _, l := range loggers {
+				emit([]string{mk(n, sh, l)})
+			}
+		}
+	}
+	for _, n := range []int{4*M + 1, 8*M - 1, 8*M + 1, 32*M - 1, 32 * M, 64 * M, 64*M + 1} {
+		for _, sh := range []shape{{false, "chunked"}, {false, "eof"}, {true, "chunked"}} {
+			emit([]string{mk(n, sh, loggers[0])})
+		}
+		emit([]string{mk(n, shape{false, "chunked"}, loggers[1])})
+	}
+}
+
 func itoa(n int) string { return strconv.Itoa(n) }
 
 func (P) Gen(r *core.Rand, tier string, emit func([]string)) {
@@ -183,6 +292,8 @@ func (P) Gen(r *core.Rand, tier string, emit func([]string)) {
 		emit(golib.GenH1Read(hr, 4000))
 	}
 	bigCases(r.Fork(), tier, emit)
+	hugeCases(r.Fork(), tier, emit)
+	warnCases(r.Fork(), emit)
 	badCases(r.Fork(), emit)
 	multiCases(r.Fork(), tier, emit)
 	faultCases(r.Fork(), tier, emit)
@@ -250,6 +361,9 @@ func (P) Gen(r *core.Rand, tier string, emit func([]string)) {
 				}
 			}
 			core.Count("twinmsg:" + b.Class())
+			if m == "p" && r.Chance(1, 3) {
+				labelBodiless(r, ab)
+			}
 			maybeMalform(r, ab)
 			ops = append(ops, twinOp(r, ab, m))
 		}
